@@ -72,6 +72,11 @@ def qualifier(inv, case, rec):
                 used = sum(1 for a in t['flat'] if a['type'] == kind)
                 if used > len(sh.get(kind + 's', [])):
                     return 'used-more-often-than-defined'
+            # as many reloads as defined, but one of them twice (and another one not at all)
+            used_locs = sorted(a.get('loc') for a in t['flat'] if a['type'] == 'reload')
+            defined = sorted(x.get('loc') for x in sh.get('reloads', []))
+            if used_locs and len(used_locs) <= len(defined) and set(used_locs) <= set(defined) and any(used_locs.count(x) > defined.count(x) for x in set(used_locs)):
+                return 'one-reload-of-the-shift-used-twice'
     if inv == 'PartitionJobs' and case.get('problem', {}).get('plan', {}).get('relations'):
         served = {a['jix'] for t in rec.get('tours', []) for a in t['flat'] if a.get('jix', 0) > 0}
         listed = {u['jix'] for u in rec.get('unassigned', [])}
